@@ -154,18 +154,32 @@ def _count_dir(segs, y, x, d):
 
 def gen_problem(rng, tier):
     h, w = rng.choice(_SHAPES)
+    return _gen(rng, h, w)
+
+
+def extra_program_problems(rng):
+    """Larger boards for the program correspondence only (nothing is enumerated there): one non-square medium board and two
+    with more than 256 cells (a tall and a wide one); clue cells (one per 10 to 20 cells, rim and corners included) read
+    off a random loop (`_loop.random_loop`, same segment order as this module's answers)."""
+    from . import _loop
+    return [_gen(rng, h, w, _loop.random_loop(rng, h, w, rng.choice([0.25, 0.4])), rng.randint(h * w // 20, h * w // 10))
+            for h, w in _loop.big_shapes(rng)]
+
+
+def _gen(rng, h, w, loop=None, k=None):
     arrow = [[".."] * w for _ in range(h)]
     inside = [[None] * w for _ in range(h)]
     faces = [(fy, fx) for fy in range(h - 1) for fx in range(w - 1)]
-    # a random loop (or the empty one) to read clues from
-    loop = [False] * (_nh(h, w) + (h - 1) * w)
-    for _ in range(30):
-        sub = [f for f in faces if rng.random() < rng.choice([0.3, 0.6, 0.9])]
-        cand = _from_faces(h, w, sub)
-        if _single_loop(_segments(h, w, cand)):
-            loop = cand
-            if any(cand) or rng.random() < 0.1:
-                break
+    if loop is None:
+        # a random loop (or the empty one) to read clues from
+        loop = [False] * (_nh(h, w) + (h - 1) * w)
+        for _ in range(30):
+            sub = [f for f in faces if rng.random() < rng.choice([0.3, 0.6, 0.9])]
+            cand = _from_faces(h, w, sub)
+            if _single_loop(_segments(h, w, cand)):
+                loop = cand
+                if any(cand) or rng.random() < 0.1:
+                    break
     segs = _segments(h, w, loop)
     on_loop = {c for s in segs for c in s}
     outside = _outside_faces(h, w, segs)
@@ -173,7 +187,8 @@ def gen_problem(rng, tier):
     rng.shuffle(free)
     if rng.random() < 0.4:
         free.sort(key=lambda c: -((c[0] in (0, h - 1)) + (c[1] in (0, w - 1))))
-    k = rng.choice([0, 1, 1, 2, 2, 3])
+    if k is None:
+        k = rng.choice([0, 1, 1, 2, 2, 3])
     mode = rng.random()
     cells = free[:k] if mode < 0.7 else [(rng.randrange(h), rng.randrange(w)) for _ in range(k)]
     for (y, x) in cells:
@@ -183,7 +198,7 @@ def gen_problem(rng, tier):
         else:
             d = rng.choice("^v<>")
             true_n = _count_dir(segs, y, x, d)
-            n = true_n if rng.random() < 0.8 else rng.randint(0, 3)
+            n = true_n if rng.random() < 0.8 else rng.randint(0, 3 if k <= 3 else 12)
             arrow[y][x] = d + str(n)
         r = rng.random()
         if r < 0.4:
